@@ -45,11 +45,31 @@ func TestCheck(t *testing.T) {
 	// cores idle); counters and reporting are goroutine-safe, the totals below are guarded by mu
 	var mu sync.Mutex
 	var wg sync.WaitGroup
+	// root-neutral blocks (neutral_test.go): blocks that leave the commitment where it was - pure Cairo-0 declarations,
+	// no-op nonce / replace / storage entries, empty diffs - reverted and re-applied at the same and at another height.
+	// Started first and side by side with the BFS below (whose shallow levels leave most cores idle): it is small and
+	// must not be the part the time budget cuts.
 	for _, newState := range []bool{false, true} {
 		wg.Add(1)
 		go func(newState bool) {
 			defer wg.Done()
 			for _, vc := range versionConfigs {
+				if r.Quick() && vc.name != "0.14.0->0.14.1@2" {
+					continue // quick: the configuration with the richest alphabet (the only one with CASM migration)
+				}
+				tr, hs := rootNeutralReorgs(r, newState, vc.at, vc.name+hist.Backend(newState))
+				mu.Lock()
+				transitions += tr
+				mu.Unlock()
+				r.Add("root_neutral_reorg_histories", hs)
+			}
+		}(newState)
+	}
+	for _, newState := range []bool{false, true} {
+		wg.Add(1)
+		go func(newState bool) {
+			defer wg.Done()
+			for vi, vc := range versionConfigs {
 				d := depth
 				if r.Quick() && vc.name == "0.14.0->0.14.1@2" {
 					d = 4 // the mixed-version configuration (the only one with CASM migration) goes one level deeper
@@ -74,22 +94,15 @@ func TestCheck(t *testing.T) {
 				distinct[label] = true
 				mu.Unlock()
 				r.Sample(map[string]any{"config": label, "states": st.States, "transitions": st.Transitions, "per_depth": st.PerDepth})
-			}
-		}(newState)
-	}
-	wg.Wait()
-	// deep reorgs: the BFS bound (3-5 operations) is below the six operations of "two blocks stored, both reverted, another
-	// block stored" on top of a non-empty state. That family is enumerated on its own: S (every state of depth <= 1),
-	// every branch x1,x2, two reverts, every y - on one long-lived node - then the full read sweep against the dictionary.
-	for _, newState := range []bool{false, true} {
-		wg.Add(1)
-		go func(newState bool) {
-			defer wg.Done()
-			for vi, vc := range versionConfigs {
+				// deep reorgs: the BFS bound (3-5 operations) is below the six operations of "two blocks stored, both reverted,
+				// another block stored" on top of a non-empty state. That family is enumerated on its own: S (every state of
+				// depth <= 1), every branch x1,x2, two reverts, every y - on one long-lived node - then the full read sweep
+				// against the dictionary. It runs right after the BFS of its configuration, so that a run that is short of time
+				// loses the last configurations and not this family as a whole.
 				if r.Quick() && vi != 0 && vc.name != "0.14.0->0.14.1@2" {
 					continue
 				}
-				n := deepReorgs(r, newState, vc.at, vc.name+hist.Backend(newState))
+				n := deepReorgs(r, newState, vc.at, label)
 				mu.Lock()
 				transitions += n
 				mu.Unlock()
@@ -108,9 +121,13 @@ func TestCheck(t *testing.T) {
 		"in every distinct state every retained block x {by number, by hash, head} x every (contract, slot) / nonce / class hash / class / casm hash of the universe is read and compared with the dictionary state; "+
 		"HELD READERS: every transition's history (and every deep-reorg history) runs on one long-lived node; %s every reader the node hands out (head, by number and by hash for every retained block) is obtained, swept, "+
 		"kept across the following operations (%s) and swept again after each of them: a reader of a block that stays retained must keep answering with the state as of its block, a head reader with the state of the current head "+
-		"(or of the head when obtained); readers whose block was reverted meanwhile carry no requirement (counted in the outcome histogram)", depth,
-		ev.Pick(r, "at the last two states before the end of the history", "at every state of the history"), ev.Pick(r, "one and two operations", "all the remaining operations")))
-	r.Assume = append(r.Assume, "block alphabet of mc/chain/alphabet.go; Pedersen/Poseidon primitives trusted", "go map iteration order inside juno not controlled")
+		"(or of the head when obtained); readers whose block was reverted meanwhile carry no requirement (counted in the outcome histogram); "+
+		"ROOT-NEUTRAL REORGS (neutral_test.go): alphabet extended by pure Cairo-0 declaration / re-declaration, nonce entry = current nonce, replace with the current class and a mix of them with a same-value "+
+		"storage write; every history S.U.revert^|U|.V with S = store-only history of length <= %d, U = n or x.n%s with n root-neutral by the dictionary model (root before == root after), "+
+		"V = every branch of length 1..2 (1 after |U|=2), restart per operation, full read sweep after every operation from U on (%s)", depth,
+		ev.Pick(r, "at the last two states before the end of the history", "at every state of the history"), ev.Pick(r, "one and two operations", "all the remaining operations"),
+		ev.Pick(r, 1, 2), ev.Pick(r, "", " or n.x"), ev.Pick(r, "mixed-version config", "all version configs")))
+	r.Assume = append(r.Assume, "block alphabet of mc/chain/alphabet.go (+ the root-neutral entries of props/c03/neutral_test.go in the root-neutral family); Pedersen/Poseidon primitives trusted", "go map iteration order inside juno not controlled")
 	r.Finish()
 }
 
